@@ -28,7 +28,7 @@ ID = 'C11'
 LEVEL = 'model_checking'
 ENGINE = 'E2 configuration cross-product (differential vs default call) + E1 edit/iterate histories'
 RULE = ('(A) states = (operator, input, strategy tuple, pass); non-trivial = the input has >= 2 data rows on some side '
-        'and the strategy differs from the default call; (B) nodes = histories over {edit1, edit2, pass, partial}; '
+        'and the strategy differs from the default call; (B) nodes = histories over {edit1, edit2, edit3 (column inserted in front, unary operators), pass, partial, arm}; '
         'non-trivial = a complete pass that follows an edit')
 ASSUMPTIONS = ['inputs <= 3 rows (unary) / <= 2+2 rows (binary); keys over {None, int, int, str}; ragged inputs over the '
                'row shapes {empty row, key only, short, full, over-long} (skipped where the default call itself raises)',
@@ -279,7 +279,7 @@ def _sig(kw, cfg):
 # ---- (B) histories --------------------------------------------------------------------------------
 
 class HistHarness(object):
-    EVENTS = ('pass', 'edit1', 'partial', 'edit2', 'arm')
+    EVENTS = ('pass', 'edit1', 'partial', 'edit2', 'arm', 'edit3')
 
     def __init__(self, cfg):
         self.cfg = dict(cfg)
@@ -339,20 +339,35 @@ class HistHarness(object):
     def apply(self, w, ev):
         w['n'] += 1
         srcs = w['srcs']
+        if ev == 'edit3':
+            # a column is inserted in front of source 1: every field the operator names moves one place to the right
+            w['edits'] += 1
+            s0 = srcs[0]
+            s0.header = ('z%d' % w['edits'],) + tuple(s0.header)
+            s0.edit(lambda rows: rows.__setitem__(slice(None), [(0,) + tuple(r) for r in rows]))
+            w['versions'].append(tuple(s.snapshot() for s in srcs))
+            w['last'] = None
+            w['after_edit'] = True
+            return ('edited',)
         if ev in ('edit1', 'edit2'):
             w['edits'] += 1
             n = w['edits']
             if ev == 'edit1':
-                width = len(srcs[0].header)
-                new = (self.small - n,) + tuple([7, 100 + n][:width - 1])
+                hdr0 = srcs[0].header
+                shift = len([f for f in hdr0 if str(f).startswith('z') and str(f)[1:].isdigit()])   # columns edit3 put in front
+                width = len(hdr0) - shift
+                new = (0,) * shift + (self.small - n,) + tuple([7, 100 + n][:width - 1])
                 srcs[0].edit(lambda rows: rows.append(new))
             else:
                 tgt = srcs[-1]
+                # (columns edit3 put in front are left alone: the key column is the first ORIGINAL column)
+                sh = len([f for f in tgt.header if str(f).startswith('z') and str(f)[1:].isdigit()])
                 if tgt.rows:
-                    tgt.edit(lambda rows: rows.__setitem__(0, (self.s1 + 'z' * n,) + tuple(rows[0][1:])))
+                    tgt.edit(lambda rows: rows.__setitem__(
+                        0, tuple(rows[0][:sh]) + (self.s1 + 'z' * n,) + tuple(rows[0][sh + 1:])))
                 else:
-                    width = len(tgt.header)
-                    tgt.edit(lambda rows: rows.append((self.s1 + 'z' * n,) + tuple([5, 200 + n][:width - 1])))
+                    width = len(tgt.header) - sh
+                    tgt.edit(lambda rows: rows.append((0,) * sh + (self.s1 + 'z' * n,) + tuple([5, 200 + n][:width - 1])))
             w['versions'].append(tuple(s.snapshot() for s in srcs))
             w['last'] = None
             w['after_edit'] = True
@@ -387,7 +402,7 @@ class HistHarness(object):
         return obs + (('pulled', pulled),)
 
     def step_check(self, w, ev, obs):
-        if ev in ('edit1', 'edit2', 'arm'):
+        if ev in ('edit1', 'edit2', 'edit3', 'arm'):
             return None
         pulled = obs[-1][1]
         if obs[0] == 'exc':
@@ -441,7 +456,10 @@ def _explore_hist(cfg, acc):
     depth = cfg['depth']
     nodes = 0
     for L in range(1, depth + 1):
-        for hist in itertools.product(HistHarness.EVENTS, repeat=L):
+        # (edit3 moves the named fields of source 1; only the unary operators keep both a well-formed call and the
+        # same field names afterwards)
+        events = HistHarness.EVENTS if h.op.kind == 'u' else HistHarness.EVENTS[:-1]
+        for hist in itertools.product(events, repeat=L):
             if hist[-1] not in ('pass',):
                 continue            # the oracle only speaks about complete passes: histories end with one
             nodes += 1
@@ -504,7 +522,7 @@ def bounds(tier, seed):
             'strategy_tuples_per_input(n=2)': len(strategies(OPS['join'], 2, '/x')),
             'ragged_unary_tables': len(ragged_unary_tables(tier, seed)),
             'history_starts': ['sources with rows', 'header-only sources'],
-            'history_depth': 3 if tier == 'quick' else 4, 'history_alphabet': list(HistHarness.EVENTS) + ['(arm = next pass over source 1 fails once at its last row)']}
+            'history_depth': 3 if tier == 'quick' else 4, 'history_alphabet': list(HistHarness.EVENTS) + ['(arm = next pass over source 1 fails once at its last row; edit3 = a column is inserted in front of source 1)']}
 
 
 def run_item(item, acc):
